@@ -103,7 +103,11 @@ def countries():
         return [row["iso3"] for row in csv.DictReader(f)]
 
 
-def gen_real(rng, iso3):
+TINY_AREA = ["DJI", "BHR", "BRB", "BRN", "MLT", "KWT"]     # crop area fraction below 1e-5
+GREENHOUSE_SCENARIOS = ["all_resilient_foods", "all_resilient_foods_and_more_area", "greenhouse"]
+
+
+def gen_real(rng, iso3, overrides=False, greenhouse=False):
     opt = {k: rng.choice(v) for k, v in COUNTRY_OPTS.items()}
     opt["scale"] = "country"
     if iso3 == "WOR":
@@ -114,6 +118,20 @@ def gen_real(rng, iso3):
         opt["crop_disruption"] = rng.choice(["zero", "country_nuclear_winter"])
     opt.update({"intake_constraints": "enabled", "fat": "not_required", "protein": "not_required",
                 "NMONTHS": rng.choice([48, 60, 72, 84, 96, 108, 120, 120, 120])})
+    if greenhouse:        # greenhouses on, crops on
+        opt["scenario"] = rng.choice(GREENHOUSE_SCENARIOS)
+        if opt["crop_disruption"] == "all_crops_die_instantly":
+            opt["crop_disruption"] = "country_nuclear_winter" if iso3 != "WOR" else "global_nuclear_winter"
+    if overrides or rng.random() < 0.15:
+        # numeric overrides of the option layer (applied by set_depending_on_option to all ten yearly ratios)
+        opt["CROP_PRODUCTION_MULTIPLIER"] = rng.choice([0.5, 0.9, 1.3])
+        opt["GRASSES_PRODUCTION_MULTIPLIER"] = rng.choice([0.5, 1.3, 2.0])
+    if overrides:         # the last year block (months 104-119) must be simulated, with crops and grass alive
+        opt["NMONTHS"] = 120
+        if iso3 != "WOR":
+            opt["crop_disruption"] = rng.choice(["zero", "country_nuclear_winter"])
+            opt["grasses"] = rng.choice(["baseline", "country_nuclear_winter"])
+            opt["seasonality"] = "country"
     return {"kind": "real", "iso3": iso3, "options": opt}
 
 
@@ -220,6 +238,10 @@ def make_cases(ctx):
         chosen = (isos + ["WOR"] * 6) * 3
         chosen = chosen[:nreal]
     cases += [gen_real(rng, iso) for iso in chosen]
+    # very small crop areas with greenhouses on (the greenhouse series must not vanish), and rows with overrides
+    tiny = rng.sample(TINY_AREA, 2) if ctx.quick else TINY_AREA * 3
+    cases += [gen_real(rng, iso, greenhouse=True) for iso in tiny]
+    cases += [gen_real(rng, iso, overrides=True) for iso in (["ARG"] if ctx.quick else rng.sample(isos, 40))]
     return cases
 
 
@@ -296,6 +318,9 @@ def audit(ctx):
     isos = countries()
     chosen = ["WOR"] + rng.sample(sorted(c09.SPECIAL), 2) + rng.sample(isos, nreal - 3) if ctx.quick else (isos + ["WOR"] * 2) * 2
     cases += [gen_real(rng, iso) for iso in chosen[:nreal]]
+    over = ["ARG", rng.choice(isos)] if ctx.quick else ["ARG", "USA", "IND"] + rng.sample(isos, 60)
+    cases += [gen_real(rng, iso, overrides=True) for iso in over]
+    cases += [gen_real(rng, iso, greenhouse=True) for iso in (rng.sample(TINY_AREA, 2) if ctx.quick else TINY_AREA * 2)]
     res = ctx.run_impl("c08_audit", {"cases": cases})
     ctx.notes["audit"] = {k: v for k, v in res.items() if k != "failures"}
     ctx.count(n=res["checks"])
